@@ -1,6 +1,7 @@
 package props
 
 import (
+	"fmt"
 	"github.com/openacid/low/bitmap"
 
 	"verif/internal/gen"
@@ -32,7 +33,7 @@ func init() {
 			}
 		}
 	}
-	req = append(req, "bitmap/empty", "bitmap/all-zero", "bitmap/all-one", "index/trailing", "index/no-trailing", "ones>=32768", "ones>=65536")
+	req = append(req, "bitmap/empty", "bitmap/all-zero", "bitmap/all-one", "index/trailing", "index/no-trailing", "index/rebuilt-after-in-place-update", "ones>=32768", "ones>=65536", "words>=65536")
 	register(&mon.Prop{
 		ID:    "C01",
 		Level: "exploration",
@@ -56,6 +57,11 @@ func init() {
 
 // c01Check runs the whole rank API on one bitmap against the sweep oracle.
 func c01Check(w *mon.W, words []uint64) bool {
+	wasNil := words == nil
+	words, guard := argW(w, words)
+	if wasNil {
+		words, guard = nil, func() bool { return true }
+	}
 	orig := cloneWords(words)
 	nw := len(words)
 	w.Obj = nil
@@ -72,10 +78,7 @@ func c01Check(w *mon.W, words []uint64) bool {
 		ret = &retained{}
 		w.State["c01"] = ret
 	}
-	if ret.keep(idx, idxT, idx128) >= 0 {
-		w.Fail("Index/earlier-returned-index-changed-by-later-call", mon.D{"what": "an index slice returned by an earlier IndexRank64/IndexRank128 call changed its content after a later call", "nwords_of_later_bitmap": nw})
-		return false
-	}
+	_ = ret // the returned indexes are scribbled and retained at the end of the check
 	w.Bucket("index/trailing")
 	w.Bucket("index/no-trailing")
 	d := func(extra mon.D) mon.D {
@@ -138,6 +141,49 @@ func c01Check(w *mon.W, words []uint64) bool {
 	}
 	if !eqWords(words, orig) {
 		w.Fail("Rank/input-modified", d(mon.D{}))
+		return false
+	}
+	if !guard() {
+		w.Fail("Rank/wrote-outside-len-of-argument", d(mon.D{"what": "poison next to the bitmap (before it, or between len and cap) was overwritten"}))
+		return false
+	}
+	// the caller updates the bitmap IN PLACE (same backing array, same length) and indexes it again,
+	// repeating the builder calls in reverse order so that each one directly follows a call of the
+	// same function with the same options on the old content: the new indexes must describe the new content
+	if nw > 0 {
+		k := int((orig[0] >> 7) % uint64(nw))
+		words[k] ^= 1<<uint(orig[0]&63) | 1<<uint((orig[0]>>8)&63)
+		w.Op = "IndexRank128(after in-place update)"
+		r128 := bitmap.IndexRank128(words)
+		w.Op = "IndexRank64(after in-place update)"
+		rT := bitmap.IndexRank64(words, true)
+		rF := bitmap.IndexRank64(words, false)
+		r64 := bitmap.IndexRank64(words)
+		w.Eval(4)
+		var c int32
+		for i := 0; i <= nw; i++ {
+			bad := rT[i] != c || (i < nw && (rF[i] != c || r64[i] != c)) || (i&1 == 0 && i/2 < len(r128) && r128[i/2] != c)
+			if bad {
+				w.Fail("Index/stale-after-in-place-update", d(mon.D{"what": "the bitmap was changed in place (word " + fmt.Sprint(k) + ") and indexed again; the new index does not describe the new content",
+					"entry": i, "expected": c, "IndexRank64_trailing": rT[i]}))
+				return false
+			}
+			if i < nw {
+				for x := words[i]; x != 0; x &= x - 1 {
+					c++
+				}
+			}
+		}
+		w.Bucket("index/rebuilt-after-in-place-update")
+	}
+	// hostile caller: the returned index slices are ours now - overwrite them up to their capacity
+	// (a shared or pooled buffer would poison later results), then remember their content
+	scribbleI32(idx)
+	scribbleI32(idxF)
+	scribbleI32(idxT)
+	scribbleI32(idx128)
+	if ret.keep(idx, idxT, idx128) >= 0 {
+		w.Fail("Index/earlier-returned-index-changed-by-later-call", mon.D{"what": "an index slice returned by an earlier IndexRank64/IndexRank128 call changed its content after a later call", "nwords_of_later_bitmap": nw})
 		return false
 	}
 	w.Eval(int64(3 * total))
@@ -240,6 +286,10 @@ func c01DenseLong(w *mon.W, idx int) {
 	n := []int{520, 1030, 1100, 2100}[idx%4]
 	if w.Cfg.Thorough() && idx%16 == 15 {
 		n = 10000 + r.Intn(30000)
+	}
+	if idx >= 6 && idx < 8 || w.Cfg.Thorough() && idx%32 == 7 {
+		n = []int{65536, 65539, 131075, 70000 + r.Intn(9)}[r.Intn(4)] // at and beyond 2^16 words
+		w.Bucket("words>=65536")
 	}
 	words := make([]uint64, n)
 	for i := range words {
